@@ -15,5 +15,8 @@ theorem labelNameRE : Gen.labelNameRE = "^[a-zA-Z_][a-zA-Z0-9_]+$" := by decide
 theorem templateReplaceCaptureRE :
     Gen.templateReplaceCaptureRE = "\\$\\$|\\$\\{([\\p{L}\\p{Nd}_]+)\\}|\\$([\\p{L}\\p{Nd}_]+)" := by decide
 theorem defaultQuantiles : Gen.defaultQuantiles = [("0.5", "0.05"), ("0.9", "0.01"), ("0.99", "0.001")] := by decide
+/-- the loader's lower limit for a summary's stream duration (`max_age / age_buckets`, repair 2eac18a) is the model's
+    `minStreamDuration`: one millisecond, in nanoseconds -/
+theorem minSummaryStreamDuration : Gen.minSummaryStreamDuration = "time.Millisecond" ∧ minStreamDuration = 1000000 := by decide
 
 end SE.Gen.Tie
